@@ -37,7 +37,56 @@ pub const SUBSETS: [&str; 14] = [
 pub fn font_name(i: usize) -> String {
     format!("{}::{}", FONTS[i].0, FONTS[i].1)
 }
+/// Leaked synthetic fonts by spec "custom:<cw>x<ch>+<spacing>" (8 glyphs 'a'..='h', replacement index 1,
+/// 3 glyphs per atlas row), created once per process.
+fn custom_font(spec: &str) -> Option<&'static MonoFont<'static>> {
+    use std::collections::HashMap;
+    use std::sync::{Mutex, OnceLock};
+    static CACHE: OnceLock<Mutex<HashMap<String, &'static MonoFont<'static>>>> = OnceLock::new();
+    let cache = CACHE.get_or_init(|| Mutex::new(HashMap::new()));
+    let mut g = cache.lock().unwrap();
+    if let Some(f) = g.get(spec) {
+        return Some(*f);
+    }
+    let (size, spacing) = spec.split_once('+')?;
+    let (cw, ch) = size.split_once('x')?;
+    let (cw, ch, spacing): (u32, u32, u32) = (cw.parse().ok()?, ch.parse().ok()?, spacing.parse().ok()?);
+    use embedded_graphics::geometry::Size;
+    use embedded_graphics::image::ImageRaw;
+    use embedded_graphics::mono_font::mapping::StrGlyphMapping;
+    use embedded_graphics::mono_font::DecorationDimensions;
+    use embedded_graphics::pixelcolor::BinaryColor;
+    let gpr = 3u32;
+    let rows = (8 + gpr - 1) / gpr;
+    let (iw, ih) = (cw * gpr, ch * rows);
+    let bpr = ((iw + 7) / 8) as usize;
+    let mut data = vec![0u8; bpr * ih as usize];
+    for y in 0..ih {
+        for x in 0..iw {
+            if (x * 7 + y * 13 + (x / cw.max(1)) * 3 + (y / ch.max(1)) * 5) % 3 != 0 {
+                data[y as usize * bpr + (x / 8) as usize] |= 0x80 >> (x % 8);
+            }
+        }
+    }
+    let data: &'static [u8] = Box::leak(data.into_boxed_slice());
+    let mapping: &'static StrGlyphMapping<'static> = Box::leak(Box::new(StrGlyphMapping::new("\0ah", 1)));
+    let font: &'static MonoFont<'static> = Box::leak(Box::new(MonoFont {
+        image: ImageRaw::<BinaryColor>::new(data, Size::new(iw, ih)).ok()?,
+        character_size: Size::new(cw, ch),
+        character_spacing: spacing,
+        baseline: ch.saturating_sub(1),
+        strikethrough: DecorationDimensions::new(ch / 2, 1),
+        underline: DecorationDimensions::new(ch + 1, 1),
+        glyph_mapping: mapping,
+    }));
+    g.insert(spec.to_string(), font);
+    Some(font)
+}
+
 pub fn font_by_name(name: &str) -> Option<&'static MonoFont<'static>> {
+    if let Some(spec) = name.strip_prefix("custom:") {
+        return custom_font(spec);
+    }
     let (m, f) = name.split_once("::")?;
     FONTS.iter().find(|e| e.0 == m && e.1 == f).map(|e| e.2)
 }
@@ -228,3 +277,25 @@ pub fn with_custom_font<R>(cw: u32, ch: u32, spacing: u32, glyphs_per_row: u32, 
     };
     f(&font)
 }
+
+/// like `text_catalogue` but for fonts given by name (built-in "subset::NAME" or "custom:<cw>x<ch>+<spacing>")
+pub fn text_catalogue_named(fonts: &[&str], strings: &[&str], line_heights: &[(u8, u32)], pos: P2) -> Vec<TextCase> {
+    let mut v = vec![];
+    for f in fonts {
+        for s in strings {
+            for (t, b, u, st) in deco16() {
+                for bl in 0..4u8 {
+                    for al in 0..3u8 {
+                        for &lh in line_heights {
+                            v.push(TextCase { font: f.to_string(), text: s.to_string(), text_color: t, bg: b, underline: u, strike: st, baseline: bl, align: al, lh, pos });
+                        }
+                    }
+                }
+            }
+        }
+    }
+    v
+}
+
+pub const CUSTOM_FONTS: [&str; 3] = ["custom:5x7+1", "custom:3x2+3", "custom:6x9+2"];
+pub const CUSTOM_STRINGS: [&str; 7] = ["", "a", "ab", "abc\nde", "a\n\nb", "hz\r\nc", "gfedcba"];
